@@ -257,7 +257,7 @@ fn cmd_run(args: &[String]) -> i32 {
         std::fs::write(&progress_path, format!("{index}\n")).ok();
         beat.store(index.wrapping_add(1), std::sync::atomic::Ordering::Relaxed);
         let case = make_case(engine, seed, &tier, index);
-        let o = engine.execute(&case, &sb);
+        let o = run_case(engine, &case, &sb);
         if let Some(d) = digests.as_mut() {
             let dh = mix(&[
                 verif_rt::rng::hash_str(&format!("{:?}", o.log.decisions)),
@@ -366,7 +366,7 @@ fn cmd_one(args: &[String]) -> i32 {
         arg_u64(args, "--watchdog-secs", 60),
     );
     let sb = Sandbox::new();
-    let o = engine.execute(&case, &sb);
+    let o = run_case(engine, &case, &sb);
     match &o.violation {
         Some(v) => {
             println!("FOUND property={} index={} clause={} detail={}", prop, index, v.clause, v.detail);
@@ -400,7 +400,7 @@ fn run_seq(prop: &str, tier: &str, seed: u64, worker: u64, workers: u64, upto: u
     while index <= upto {
         beat.store(index.wrapping_add(1), std::sync::atomic::Ordering::Relaxed);
         let case = make_case(engine, seed, tier, index);
-        let o = engine.execute(&case, &sb);
+        let o = run_case(engine, &case, &sb);
         if index == upto {
             last = (o.violation, Some(case));
         }
@@ -451,7 +451,7 @@ fn cmd_minimise(args: &[String]) -> i32 {
     let v = match v {
         Some(v) => v,
         None => {
-            let o = engine.execute(&case, &sb);
+            let o = run_case(engine, &case, &sb);
             match o.violation {
                 Some(v) => v,
                 None => {
@@ -462,7 +462,7 @@ fn cmd_minimise(args: &[String]) -> i32 {
         }
     };
     let m = minimise::minimise(engine, &case, &v, &sb, 4000);
-    let o = engine.execute(&m.case, &sb);
+    let o = run_case(engine, &m.case, &sb);
     let mut trace = trace_json(&o);
     trace["minimisation"] = json!({
         "candidates_tried": m.tried,
@@ -532,7 +532,7 @@ fn cmd_replay(args: &[String]) -> i32 {
     quiet_panics();
     start_watchdog(std::sync::Arc::new(std::sync::atomic::AtomicU64::new(1)), 300);
     let sb = Sandbox::new();
-    let o = engine.execute(&case, &sb);
+    let o = run_case(engine, &case, &sb);
     if o.log.diverged {
         println!("REPLAY property={} diverged=true (the recorded decision list no longer fits the code)", case.prop);
     }
